@@ -66,6 +66,8 @@ pub fn det_families() -> Vec<&'static str> {
 }
 
 pub mod live_park;
+pub mod live_cqueue;
+pub mod live_local;
 pub mod live_join;
 pub mod live_rwlock;
 pub mod live_life;
@@ -85,6 +87,8 @@ pub struct LiveBuilt {
 pub fn build_live(family: &str, rng: &mut Rng, tier: u32) -> Option<LiveBuilt> {
     match family {
         "park" => Some(live_park::build(rng, tier)),
+        "cqueue" => Some(live_cqueue::build(rng, tier)),
+        "local" => Some(live_local::build(rng, tier)),
         "blocker" => Some(live_park::build_blocker(rng, tier)),
         "park_sleepers" => Some(live_park::build_sleepers(rng, tier)),
         "join" => Some(live_join::build(rng, tier)),
@@ -98,6 +102,8 @@ pub fn build_live(family: &str, rng: &mut Rng, tier: u32) -> Option<LiveBuilt> {
         "io_timeout_race" => Some(live_io::build_timeout(rng, tier, true)),
         "io_cancel" => Some(live_io::build_cancel(rng, tier)),
         "io_cancel_shared" => Some(live_io::build_cancel_shared(rng, tier)),
+        "io_unix_iter" => Some(live_io::build_unix_iter(rng, tier)),
+        "io_unix_churn" => Some(live_io::build_unix_churn(rng, tier)),
         _ => None,
     }
 }
